@@ -1,11 +1,14 @@
-From Verif Require Import Common C01_Model C01_Spec C01_Monitor C01_Hist C01_HistSpec.
+From Verif Require Import Common C01_Model C01_Spec C01_Monitor C01_Hist C01_HistSpec C01_Comp C01_CompSpec.
 From Verif Require Op_Model Op_Corr Op_Spec C01_OpSpec.
 Open Scope N_scope.
 
 Inductive case := CInf (i : input) (o : observation) | CMon (i : min) (o : mobs)
   | CStress (i : input) (o : observation)    (* free-running goroutines: judged by P_free only *)
   | COp (c : Op_Corr.case)                    (* the whole operator (Op_Model): unlock only by the binding's own Synchronization *)
-  | CHist (i : hist_in) (o : hobs).           (* namespace.labelSelector: events over histories of namespaces and objects (C01_Hist) *)
+  | CHist (i : hist_in) (o : hobs)            (* namespace.labelSelector: events over histories of namespaces and objects (C01_Hist) *)
+  | CHist2 (i : hist_in) (k : comp_in) (o oc : hobs).
+                                              (* the same beside a second binding with static namespaces whose informers
+                                                 share the first one's shared informers (C01_Comp): the events of both *)
 
 (* ghost of the run: changes picked up when the last Synchronization read before the first
    unlock was taken (computed by the model run itself) *)
@@ -27,7 +30,7 @@ Definition obs_of (s : state) : observation :=
        (match out_before_e s with Some n => n | None => N.of_nat (length (out s)) end)
        (finished s) false.
 
-Inductive mo := MoInf (o : observation) | MoMon (o : mobs) | MoOp (o : list Op_Corr.sobs) | MoHist (o : hobs).
+Inductive mo := MoInf (o : observation) | MoMon (o : mobs) | MoOp (o : list Op_Corr.sobs) | MoHist (o : hobs) | MoHist2 (o oc : hobs).
 Definition model_obs (c : case) : mo :=
   match c with
   | CInf i _ => MoInf (obs_of (run i))
@@ -35,6 +38,7 @@ Definition model_obs (c : case) : mo :=
   | CStress i _ => MoInf (obs_of (run i))
   | COp c => MoOp (Op_Corr.model_obs c)
   | CHist i _ => MoHist (mkHOb (hist_out i) 0 false)
+  | CHist2 i k _ _ => MoHist2 (mkHOb (hist_out i) 0 false) (mkHOb (comp_out i k) 0 false)
   end.
 
 Definition view_eqb (a b : N * cache_t) : bool := N.eqb (fst a) (fst b) && cache_eqb (snd a) (snd b).
@@ -65,6 +69,9 @@ Definition agrees (c : case) : bool :=
   | CStress _ o => negb (ob_bad o)
   | COp c => Op_Corr.agrees c
   | CHist i o => same_per_object (hist_out i) (ho_out o) && N.eqb (ho_before o) 0 && negb (ho_bad o)
+  | CHist2 i k o oc =>
+      same_per_object (hist_out i) (ho_out o) && N.eqb (ho_before o) 0 && negb (ho_bad o)
+      && same_per_object (comp_out i k) (ho_out oc) && N.eqb (ho_before oc) 0 && negb (ho_bad oc)
   end.
 
 Definition spec_ok (c : case) : bool :=
@@ -74,6 +81,7 @@ Definition spec_ok (c : case) : bool :=
   | CStress i o => P_free i o
   | COp c => C01_OpSpec.P_op c
   | CHist i o => HP i o
+  | CHist2 i k o oc => HP2 i k o oc
   end.
 
 Definition mismatches (cs : list case) : list N := indices_where (fun c => negb (agrees c)) cs.
@@ -81,4 +89,4 @@ Definition spec_violations (cs : list case) : list N := indices_where (fun c => 
 Definition trigger_F23 (cs : list case) : list N :=
   indices_where (fun c => match c with CInf i _ => T i | _ => false end) cs.
 Definition trigger_F24 (cs : list case) : list N :=
-  indices_where (fun c => match c with CMon i _ => MT i | CHist i _ => HT i | _ => false end) cs.
+  indices_where (fun c => match c with CMon i _ => MT i | CHist i _ => HT i | CHist2 i _ _ _ => HT i | _ => false end) cs.
